@@ -77,7 +77,7 @@ func c08Body(s *simkit.Sim, rc *simkit.RunCtx) {
 		kinds := []struct {
 			k    string
 			rate int
-		}{{seams.KVOpErr, 15}, {seams.KVCommitFail, 40}, {seams.KVCrashBeforeCommit, 15}, {seams.KVCrashAfterCommit, 15}, {seams.KVCrashBetweenHooks, 15}, {seams.KVCrashBeforeTx, 8}}
+		}{{seams.KVOpErr, 15}, {seams.KVCommitFail, 40}, {seams.KVCrashBeforeCommit, 15}, {seams.KVCrashAfterCommit, 15}, {seams.KVCrashBetweenHooks, 15}, {seams.KVCrashBeforeTx, 8}, {seams.KVCtxCancel, 30}}
 		mode := s.D.Decide("faultmode", 4) // 0: fault-free batch
 		for _, k := range kinds {
 			if concurrentRepair && len(k.k) > 5 && k.k[:5] == "crash" {
@@ -104,9 +104,13 @@ func c08Body(s *simkit.Sim, rc *simkit.RunCtx) {
 	}
 	// ---- corpus ----
 	root := h.corpus.Root()
-	if err := h.node().State().Add(context.Background(), root.Tx, root.Payload); err != nil {
-		s.Fail("C08.harness", "root", "root rejected: %v", err)
-		return
+	// sometimes the very first transaction is offered by the tasks, under faults like the others (rollback on an empty DAG)
+	rootUnderFaults := preload == 0 && !repair && !concurrentRepair && s.D.Decide("root-under-faults", 5) == 4
+	if !rootUnderFaults {
+		if err := h.node().State().Add(context.Background(), root.Tx, root.Payload); err != nil {
+			s.Fail("C08.harness", "root", "root rejected: %v", err)
+			return
+		}
 	}
 	if preload > 0 {
 		for _, t := range h.corpus.Chain(root, preload, "pre") {
@@ -131,6 +135,9 @@ func c08Body(s *simkit.Sim, rc *simkit.RunCtx) {
 			b := (a + 1 + s.D.Decide("dup-task", ntasks-1)) % ntasks
 			lists[b] = append(lists[b], t)
 		}
+	}
+	if rootUnderFaults {
+		lists[0] = append([]*world.CTx{root}, lists[0]...)
 	}
 	// local reordering: swap neighbours so that some arrive before their prevs
 	for _, l := range lists {
